@@ -358,6 +358,21 @@ func vsLightWorld(s *verifsim.Sim) {
 		w.gen++
 		gen := w.gen
 		w.active = map[uint64]int{}
+		if gen > 1 && !faultFree && s.Chance(1, 8, "sample_amount_raised") {
+			// the operator restarts the node with a larger sample amount: a result stored under the
+			// smaller amount must not make a block available (the statement speaks of the configured
+			// amount); whether the node then refuses or samples afresh is not judged
+			var bigger []int
+			for _, c := range []int{2, 4, 5, 16, 20, 40, 70} {
+				if c > w.count {
+					bigger = append(bigger, c)
+				}
+			}
+			if len(bigger) > 0 {
+				w.count = bigger[s.Choose(len(bigger), "new_sample_count")]
+				s.Fault("sample-amount-raised")
+			}
+		}
 		w.mu.Unlock()
 		handle = ds.Handle(fmt.Sprintf("light%d", gen))
 		la = NewShareAvailability(vsGetter{w, gen}, handle, nil, WithSampleAmount(uint(w.count)))
